@@ -117,6 +117,36 @@ func bools(t *rapid.T, label string, n int) []bool {
 	return out
 }
 
+// near moves `to` next to `from` in a share of the cases (same day, next day, same month) - sequences of nearly equal
+// values are what caches and memos get wrong.
+func near(t *rapid.T, from spec.Civil, to spec.Civil) spec.Civil {
+	switch rapid.IntRange(0, 7).Draw(t, "date.near") {
+	case 0:
+		return from
+	case 1: // the next day
+		d := from
+		d.D++
+		if d.D > spec.DaysIn(d.Y, d.M) {
+			d.D, d.M = 1, d.M+1
+			if d.M > 12 {
+				d.M, d.Y = 1, d.Y+1
+			}
+		}
+		if d.Y > 9999 {
+			return from
+		}
+		return d
+	case 2: // same year, another month and day
+		m := rapid.IntRange(1, 12).Draw(t, "date.near.m")
+		c := spec.Civil{Y: from.Y, M: m, D: rapid.IntRange(1, spec.DaysIn(from.Y, m)).Draw(t, "date.near.d")}
+		if c.Y == 1 && c.M == 1 && c.D == 1 {
+			c.D = 2 // 0001-01-01 is outside the stated domain
+		}
+		return c
+	}
+	return to
+}
+
 func dateVariant(t *rapid.T, v *api.Variant, i int, label string) {
 	if rapid.IntRange(0, 2).Draw(t, label+".repr") == 0 {
 		v.DateLoc[i] = ZoneName(t, label+".loc")
@@ -188,6 +218,7 @@ func Call(t *rapid.T, op string) api.Case {
 			c.Card = 8165538
 		}
 		c.From, c.To = Civil(t, "from"), Civil(t, "to")
+		c.To = near(t, c.From, c.To)
 		if rapid.IntRange(0, 9).Draw(t, "zerodate") == 0 {
 			c.To = spec.Civil{}
 		}
@@ -223,6 +254,7 @@ func Call(t *rapid.T, op string) api.Case {
 	case "SetTimeProfile":
 		c.Profile, c.Linked = U8(t, "profile"), U8(t, "linked")
 		c.From, c.To = Civil(t, "from"), Civil(t, "to")
+		c.To = near(t, c.From, c.To)
 		dateVariant(t, &v, 0, "from")
 		dateVariant(t, &v, 1, "to")
 		weekdays(t, &c, &v)
@@ -236,6 +268,7 @@ func Call(t *rapid.T, op string) api.Case {
 		v.ExtraSegments = rapid.SliceOfN(rapid.Uint8(), 0, 2).Draw(t, "segments.foreign")
 	case "AddTask":
 		c.From, c.To = Civil(t, "from"), Civil(t, "to")
+		c.To = near(t, c.From, c.To)
 		if rapid.IntRange(0, 9).Draw(t, "zerodate") == 0 {
 			c.From = spec.Civil{}
 		}
